@@ -1,4 +1,5 @@
 import ApdVerif.Model.Dispatch
+import ApdVerif.Lemmas.SqrtDefs
 import Mathlib.Tactic.SplitIfs
 /-!
 # Lemmas for C03: the trap set is only consulted by `goError` at the very end
@@ -401,8 +402,8 @@ def sqrtTailCtx (nc2 ncw : Ctx) (x : Dec) (a : Dec) : Dec × Cond :=
   let r : Dec × Cond := (r2.1, r1.2 ||| r2.2)
   let res :=
     if !r.2.inexact && r.1.form == .finite then
-      let sq := mulOp baseCtx r.1 r.1
-      if sq.err != .none || sq.d.cmp x != 0 then r.2 ||| cInexact ||| cRounded else r.2
+      let sq : Dec := { coeff := r.1.coeff * r.1.coeff, exp := 2 * r.1.exp }
+      if sq.cmp x != 0 then r.2 ||| cInexact ||| cRounded else r.2
     else r.2
   (r.1, res)
 
@@ -416,7 +417,16 @@ theorem sqrtOp_eq (c : Ctx) (x : Dec) :
       | some o => o
       | none =>
         if (sqrtCore c x).1.failed then failOut (sqrtCore c x).1.errOf
-        else finish { c with prec := c.prec, mode := .halfEven } (sqrtTail c x (sqrtCore c x).2) := rfl
+        else finish { c with prec := c.prec, mode := .halfEven } (sqrtTail c x (sqrtCore c x).2) := by
+  -- through the named parts of Lemmas/SqrtDefs (each step a small `rfl`; comparing the two fully substituted
+  -- `let` chains at once is too much for the elaborator's unifier)
+  have hc : sqrtCore c x = SqrtD.iter c x := rfl
+  have ht : ∀ a : Dec, finish { c with prec := c.prec, mode := .halfEven } (sqrtTail c x a) = SqrtD.tail c x a :=
+    fun _ => rfl
+  rw [hc, ht]
+  cases h : rootSpecials c x 2 with
+  | some o => unfold sqrtOp; rw [h]
+  | none => exact SqrtD.sqrtOp_eq c x h
 
 theorem sqrtSettle_wt (c : Ctx) (t : Cond) (d a x : Dec) : sqrtSettle (wt c t) d a x = sqrtSettle c d a x := by
   unfold sqrtSettle
